@@ -10,18 +10,18 @@ import (
 	"sync"
 
 	"github.com/pinealctx/neptune/store/gormx"
-	"verifharness/vh"
 	"gorm.io/driver/mysql"
 	"gorm.io/gorm"
 	"gorm.io/gorm/logger"
+	"verifharness/vh"
 )
 
 // ---- fake database/sql driver recording Begin / Commit / Rollback / Exec ----
 
 type c18Script struct {
-	mu                           sync.Mutex
+	mu                            sync.Mutex
 	beginOK, commitOK, rollbackOK bool
-	events                       []string
+	events                        []string
 }
 
 func (s *c18Script) add(e string) { s.mu.Lock(); s.events = append(s.events, e); s.mu.Unlock() }
